@@ -54,6 +54,10 @@ type Engine struct {
 	// Switches of the decoder: number of constant cases per switch.
 	SwitchCases []int
 	ConstCases  int
+	// GlobalInit: the stores package initialisation makes to package-level
+	// variables (constants only); InitOnly: the variables nothing else writes.
+	GlobalInit *absint.State
+	InitOnly   map[string]bool
 }
 
 type Leaf struct {
@@ -118,6 +122,7 @@ func New(p *load.Program) (*Engine, error) {
 		return nil, fmt.Errorf("UNRESOLVED anchor: decoder %s does not take exactly the *CPU", e.Exec)
 	}
 	e.IntW = int(p.Sizes.Sizeof(types.Typ[types.Int])) * 8
+	e.initGlobals()
 	// leaves
 	tmp := absint.New(p, dom.NewCtx(), nil)
 	tmp.EachLeaf(named, "", func(path string, t types.Type) {
@@ -259,11 +264,13 @@ func (e *Engine) RunImpl(c *dom.Ctx, spec Spec, opt Options) *ImplSummary {
 	tr.Fixed = e.fixedHook(c, spec, pc)
 	in := absint.New(e.P, c, tr)
 	in.AddSymbolicRoot("cpu", "")
+	in.ReadableGlobals = e.InitOnly
+	e.seedRoots(in)
 	if opt.SwapIXIY {
 		in.InitOverride["cpu|"+isa.LocIX] = c.Atom("Init("+isa.LocIY+")", 16)
 		in.InitOverride["cpu|"+isa.LocIY] = c.Atom("Init("+isa.LocIX+")", 16)
 	}
-	st := absint.NewState()
+	st := e.GlobalInit.Clone()
 	_, out, err := in.Run(e.Exec, []absint.Value{&absint.Ptr{Root: "cpu", Nil: bdd.False}}, st)
 	s := &ImplSummary{Err: err, Instrs: in.Instrs}
 	s.C, s.Trace = c, tr
@@ -320,9 +327,33 @@ func (e *Engine) RunImpl(c *dom.Ctx, spec Spec, opt Options) *ImplSummary {
 		if strings.HasPrefix(root, "alloc#") {
 			continue
 		}
+		if gv, ok := e.GlobalInit.Get(root, path); ok {
+			if cur, _ := out.Get(root, path); absint.SameValue(cur, gv) {
+				continue // untouched contents of an initialisation-only table
+			}
+		}
 		s.Extra = append(s.Extra, root+"."+path)
 	}
 	return s
+}
+
+// seedRoots declares the roots the seeded initial state mentions (arrays
+// allocated by package initialisation).
+func (e *Engine) seedRoots(in *absint.Interp) {
+	for _, k := range e.GlobalInit.Keys() {
+		root, _ := absint.SplitKey(k)
+		if strings.HasPrefix(root, "init.alloc#") {
+			in.AddConcreteRoot(root)
+		}
+	}
+}
+
+// SeedInterp prepares an interpreter and initial state with the package's
+// initialisation-only tables.
+func (e *Engine) SeedInterp(in *absint.Interp) *absint.State {
+	in.ReadableGlobals = e.InitOnly
+	e.seedRoots(in)
+	return e.GlobalInit.Clone()
 }
 
 // RefSummary is the reference side.
@@ -610,4 +641,174 @@ func (e *Engine) CompareAll() []*ArmResult {
 	}
 	wg.Wait()
 	return out
+}
+
+// readOnlyUse: every use of v (a global's address, or a value loaded from it)
+// only reads.
+func readOnlyUse(v ssa.Value, depth int) bool {
+	refs := v.Referrers()
+	if refs == nil || depth > 4 {
+		return depth <= 4
+	}
+	for _, r := range *refs {
+		switch x := r.(type) {
+		case *ssa.UnOp:
+			if x.Op.String() != "*" {
+				continue
+			}
+			// the loaded value may be a slice/map/pointer that is written through
+			switch x.Type().Underlying().(type) {
+			case *types.Slice, *types.Map, *types.Pointer:
+				if !readOnlyUse(x, depth+1) {
+					return false
+				}
+			}
+		case *ssa.IndexAddr:
+			if !readOnlyUse(x, depth+1) {
+				return false
+			}
+		case *ssa.FieldAddr:
+			if !readOnlyUse(x, depth+1) {
+				return false
+			}
+		case *ssa.Lookup, *ssa.Index, *ssa.Field, *ssa.DebugRef, *ssa.BinOp, *ssa.Range, *ssa.Extract, *ssa.If:
+		case *ssa.Call:
+			if b, ok := x.Call.Value.(*ssa.Builtin); ok && (b.Name() == "len" || b.Name() == "cap") {
+				continue
+			}
+			return false
+		default:
+			return false
+		}
+	}
+	return true
+}
+
+// initGlobals interprets the package initialisation of package z80 and
+// records which package-level variables are written by nothing else.
+func (e *Engine) initGlobals() {
+	e.InitOnly = map[string]bool{}
+	e.GlobalInit = absint.NewState()
+	sp := e.P.SSAPkg(load.ModulePath)
+	if sp == nil {
+		return
+	}
+	// ssa.Global does not track referrers: scan every function of the module
+	written := map[*ssa.Global]bool{}
+	var visit func(fn *ssa.Function)
+	seenFn := map[*ssa.Function]bool{}
+	visit = func(fn *ssa.Function) {
+		if fn == nil || seenFn[fn] || fn.Blocks == nil {
+			return
+		}
+		seenFn[fn] = true
+		for _, af := range fn.AnonFuncs {
+			visit(af)
+		}
+		isInit := fn.Name() == "init" && fn.Pkg == sp
+		for _, b := range fn.Blocks {
+			for _, in := range b.Instrs {
+				for _, op := range in.Operands(nil) {
+					g, ok := (*op).(*ssa.Global)
+					if !ok || g.Pkg != sp || isInit {
+						continue
+					}
+					switch x := in.(type) {
+					case *ssa.UnOp:
+						switch x.Type().Underlying().(type) {
+						case *types.Slice, *types.Map, *types.Pointer:
+							if !readOnlyUse(x, 0) {
+								written[g] = true
+							}
+						}
+					case *ssa.IndexAddr:
+						if !readOnlyUse(x, 0) {
+							written[g] = true
+						}
+					case *ssa.FieldAddr:
+						if !readOnlyUse(x, 0) {
+							written[g] = true
+						}
+					case *ssa.DebugRef:
+					default:
+						written[g] = true
+					}
+				}
+			}
+		}
+	}
+	for _, pk := range e.P.Prog.AllPackages() {
+		if pk.Pkg.Path() != load.ModulePath && !strings.HasPrefix(pk.Pkg.Path(), load.ModulePath+"/") {
+			continue
+		}
+		for _, m := range pk.Members {
+			switch x := m.(type) {
+			case *ssa.Function:
+				visit(x)
+			case *ssa.Type:
+				for _, tt := range []types.Type{x.Type(), types.NewPointer(x.Type())} {
+					ms := e.P.Prog.MethodSets.MethodSet(tt)
+					for i := 0; i < ms.Len(); i++ {
+						visit(e.P.Prog.MethodValue(ms.At(i)))
+					}
+				}
+			}
+		}
+	}
+	for _, m := range sp.Members {
+		if g, ok := m.(*ssa.Global); ok && !strings.HasPrefix(g.Name(), "init$") && !written[g] {
+			e.InitOnly["global:"+g.RelString(nil)] = true
+		}
+	}
+	initf := sp.Func("init")
+	if initf == nil {
+		return
+	}
+	c := dom.NewCtx()
+	in := absint.New(e.P, c, dom.NewTrace(c))
+	in.NoGlobalEvents = true
+	in.LenientExternals = true
+	in.ReadableGlobals = e.InitOnly
+	if g := sp.Var("init$guard"); g != nil {
+		in.InitOverride["global:"+g.RelString(nil)+"|"] = c.Const(1, 0)
+	}
+	_, out, err := in.Run(initf, nil, absint.NewState())
+	if err != nil {
+		return // initialisation outside the modelled fragment: globals stay symbolic (reads are then reported)
+	}
+	// keep constants only (node ids 0/1 are valid in every context)
+	for _, k := range out.Keys() {
+		root, path := absint.SplitKey(k)
+		if !strings.HasPrefix(root, "global:") && !strings.HasPrefix(root, "alloc#") {
+			continue
+		}
+		if strings.HasPrefix(root, "global:") && !e.InitOnly[root] {
+			continue // has a writer outside initialisation: contents unknown at run time
+		}
+		v, _ := out.Get(root, path)
+		ren := func(r string) string {
+			if strings.HasPrefix(r, "alloc#") {
+				return "init." + r
+			}
+			return r
+		}
+		switch x := v.(type) {
+		case dom.BV:
+			if _, isc := x.IsConst(); isc {
+				e.GlobalInit.Set(ren(root), path, x)
+			}
+		case *absint.Slice:
+			y := *x
+			y.Root = ren(y.Root)
+			e.GlobalInit.Set(ren(root), path, &y)
+		case *absint.Ptr:
+			y := *x
+			y.Root = ren(y.Root)
+			e.GlobalInit.Set(ren(root), path, &y)
+		case *absint.FuncV:
+			if len(x.Bindings) == 0 {
+				e.GlobalInit.Set(ren(root), path, x)
+			}
+		}
+	}
 }
